@@ -26,6 +26,22 @@ def run_all(chk, groups, tier):
     else:
         with mp.get_context("fork").Pool(min(16, len(args))) as pool:
             res = pool.map(_run_unit, args, chunksize=1)
+    # second chance for obligations that came back `unknown` while all cores were busy: re-run (at most four) such units one after the other
+    # with a three times larger budget; a verdict other than `unknown` replaces the first one, nothing else changes
+    flaky = [i for i, r in enumerate(res) if not r.get("unsupported") and not r.get("crash")
+             and any(o.get("status") == "unknown" for o in r.get("obligations", []))]
+    if 1 <= len(flaky) <= 4 and not os.environ.get("VERIF_NO_RETRY"):
+        os.environ["VERIF_LONG"] = "1"
+        try:
+            for i in flaky:
+                r2 = _run_unit(args[i])
+                n1 = sum(o.get("status") == "unknown" for o in res[i].get("obligations", []))
+                n2 = sum(o.get("status") == "unknown" for o in r2.get("obligations", [])) if not (r2.get("unsupported") or r2.get("crash")) else n1 + 1
+                if n2 < n1:
+                    r2["retried_alone"] = True
+                    res[i] = r2
+        finally:
+            os.environ.pop("VERIF_LONG", None)
     chk.add_units(res)
 
 
